@@ -14,15 +14,20 @@ PY = "/venv/bin/python"
 PY_ROWS = ["N1", "N2in", "N2out", "N2inout", "B1", "B1out", "B1inout", "S1in", "S1out", "S1c", "S3in", "S3out",
            "S3inout", "S3val", "N3in", "N3out", "N2ref", "N2refout"]
 PY_RESULTS = ["void", "N", "B", "C", "S1", "S3", "S3ref"]
+# overload sets distinguishable by Python argument types (a Python int is accepted where a double
+# or - as bool is a subclass of int - an int is expected, so those pairs are not used)
+PY_OVL_SIGS = [[], ["int"], ["string"], ["int", "int"], ["int", "string"], ["string", "bool"]]
 # 8/16-bit integers are parsed with the format unit "i" into 1- or 2-byte variables (recorded
 # known finding: the 4-byte store clobbers neighbouring variables): excluded, probed separately
 PY_TYPES = [t for t in xlib.NUM_T_ALL if t not in ("int8_t", "int16_t", "uint8_t", "uint16_t")]
 
 
-def py_inputs(f):
+def py_inputs(f, call=None):
     """Parameters that are Python-visible inputs, in declaration order."""
     res = []
-    for p in f["params"]:
+    for idx, p in enumerate(f["params"]):
+        if call is not None and "nargs" in call and idx >= call["nargs"]:
+            continue
         if p.get("implied_of"):
             continue
         if p["dir"] in ("in", "inout") or p.get("size_for"):
@@ -151,26 +156,48 @@ def py_plan(lib):
     """xlib.plan, plus for every plain/method call ALL positional/keyword splits and bad calls."""
     ops = []
     counts = {}
+
+    def next_k(f):
+        k = counts.get(f["fid"], 0)
+        counts[f["fid"]] = k + 1
+        return k % len(f["calls"])
+    done_bad = set()
     for op in xlib.plan(lib):
         if op["kind"] == "del":
             continue            # object finalisation is probed separately (known finding)
         f = op["f"]
-        n = len(py_inputs(f))
-        if op["kind"] in ("new", "make") or n == 0:
-            k = counts.get(f["fid"], 0)
-            counts[f["fid"]] = k + 1
-            ops.append(dict(op, k=k % len(f["calls"]), split=n, perm=False))
+        if op["kind"] in ("new", "make"):
+            k = next_k(f)
+            ops.append(dict(op, k=k, split=len(py_inputs(f, f["calls"][k])), perm=False))
             continue
-        for split in range(n + 1):
-            k = counts.get(f["fid"], 0)
-            counts[f["fid"]] = k + 1
-            ops.append(dict(op, k=k % len(f["calls"]), split=split, perm=(split % 2 == 1)))
+        # how many inputs does the NEXT call vector have?
+        k0 = counts.get(f["fid"], 0) % len(f["calls"])
+        n0 = len(py_inputs(f, f["calls"][k0]))
+        if n0 == 0:
+            ops.append(dict(op, k=next_k(f), split=0, perm=False))
+        else:
+            for split in range(n0 + 1):
+                k = next_k(f)
+                n = len(py_inputs(f, f["calls"][k]))
+                ops.append(dict(op, k=k, split=min(split, n), perm=(split % 2 == 1)))
+        if f["fid"] in done_bad:
+            continue
+        done_bad.add(f["fid"])
         # bad calls (never reach the library, so the counters do not move)
-        base = dict(op, k=counts[f["fid"]] % len(f["calls"]))
-        ops.append(dict(base, bad="too-few"))
-        ops.append(dict(base, bad="too-many"))
+        kb = counts[f["fid"]] % len(f["calls"])
+        base = dict(op, k=kb)
+        nb = len(py_inputs(f, f["calls"][kb]))
         ops.append(dict(base, bad="unknown-keyword"))
-        for i in range(n):
+        if f.get("noverload", 1) > 1:
+            # another overload may legitimately accept a changed argument list: only a call
+            # that can match none of them (five list arguments) is used
+            ops.append(dict(base, bad="no-overload"))
+            continue
+        if not f.get("ndefault"):
+            if nb:
+                ops.append(dict(base, bad="too-few"))
+            ops.append(dict(base, bad="too-many"))
+        for i in range(nb):
             ops.append(dict(base, bad="wrong-type", pos=i))
     return ops
 
@@ -196,7 +223,7 @@ def py_driver(lib):
         out.append("P('C %d')" % site)
         f = op["f"]
         call = f["calls"][op["k"]]
-        inputs = py_inputs(f)
+        inputs = py_inputs(f, call)
         lits = [py_lit(p, call, op) for p in inputs]
         names = [p["name"] for p in inputs]
         target = py_target(lib, op)
@@ -205,6 +232,8 @@ def py_driver(lib):
                 out.append("bad(%s%s)" % (target, "".join(", " + l for l in lits[:-1])))
             elif op["bad"] == "too-many":
                 out.append("bad(%s%s, 7)" % (target, "".join(", " + l for l in lits)))
+            elif op["bad"] == "no-overload":
+                out.append("bad(%s, [], {}, [], {}, [])" % target)
             elif op["bad"] == "unknown-keyword":
                 out.append("bad(%s%s, no_such_argument=1)" % (target, "".join(", " + l for l in lits)))
             else:
